@@ -31,6 +31,7 @@ type Sender struct {
 	Retry int    `json:"retry"` // on overflow: yield and call again, at most this many times per packet
 	Pace  int    `json:"pace"`  // microseconds between sends (0: none)
 	Burst bool   `json:"burst"` // no scheduling jitter between the calls (builds a backlog)
+	Delay int    `json:"delay,omitempty"` // microseconds to wait (after When) before the first call
 }
 
 // Closer calls Close (graceful) or ForceClose once.
@@ -45,6 +46,7 @@ type Peer struct {
 	Frames    []int  `json:"frames"` // body sizes of the valid frames the peer sends
 	Tail      string `json:"tail"`   // "" | fin | rst | garbage | badcrc
 	WriteWhen string `json:"wwhen"`  // start | senders | ccall | cret
+	Pace      int    `json:"pace,omitempty"` // microseconds between the peer's frames (0: none): keeps the peer writing for a while
 }
 
 // SendRec is one SendPacket call as seen by the caller.
